@@ -96,6 +96,8 @@ fn main() {
                 let seed: u64 = sd.parse().unwrap_or(1);
                 cases.extend(props::cases(prop, tier, seed));
             }
+            let first: u64 = args[4].split(',').next().and_then(|x| x.parse().ok()).unwrap_or(1);
+            cases.extend(props::scale_cases_for(prop, tier, first));
             let mut w = BufWriter::new(File::create(&args[5]).unwrap());
             let mut meta = BufWriter::new(File::create(&args[6]).unwrap());
             writeln!(meta, "[").unwrap();
